@@ -27,11 +27,17 @@ def main():
         from . import selfcheck
         return selfcheck.sensitivity()
     from . import runner
+    from .registry import REG
+    if a.what not in REG:
+        print("unknown check %r (known: %s)" % (a.what, ", ".join(sorted(REG))))
+        return 2
+    cross = "cross" in REG[a.what]
     if a.replay:
-        return runner.run_replay(a.what, a.replay)
+        return (runner.run_cross_replay if cross else runner.run_replay)(a.what, a.replay)
     if a.tier not in ("quick", "thorough"):
         a.tier = "quick"
-    return runner.run_check(a.what, a.tier, seed, nproc=a.nproc, runs=a.runs, budget=a.budget)
+    fn = runner.run_cross if cross else runner.run_check
+    return fn(a.what, a.tier, seed, nproc=a.nproc, runs=a.runs, budget=a.budget)
 
 
 if __name__ == "__main__":
